@@ -785,3 +785,56 @@ func VerifyLenient(pk, msg, sig []byte, l Lenient) bool {
 
 // Verify is the strict specification verifier (cached matrix expansion).
 func Verify(pk, msg, sig []byte) bool { return VerifyLenient(pk, msg, sig, Lenient{}) }
+
+// ---- degenerate public keys (t1 = 0): anyone can produce accepted triples, with ANY hint vector ----
+
+// ForgeForZeroT1 builds a (pk, sig) pair for msg that the specification verifier accepts, for the public key
+// rho || pack(t1 = 0): with t1 = 0 the verifier computes w1' = UseHint(h, A z) independently of the challenge,
+// so c~ = H(mu || w1') closes the loop. z and h are the caller's choice (||z|| < gamma1 - beta, weight(h) <= omega).
+// It also returns A z (coefficient domain, [0,q)) so that callers can aim hints at chosen coefficients.
+func ForgeForZeroT1(rho []byte, msg []byte, z *[L]Poly, h *[K]Poly) (pk, sig []byte, az [K]Poly) {
+	pk = append([]byte(nil), rho...)
+	var zero Poly
+	for i := 0; i < K; i++ {
+		pk = append(pk, PackT1(&zero)...)
+	}
+	A := expandACached(rho)
+	mu := shake256(64, shake256(32, pk), msg)
+	var w1p []byte
+	for i := 0; i < K; i++ {
+		for j := 0; j < L; j++ {
+			m := Mul(&A[i][j], &z[j])
+			az[i] = Add(&az[i], &m)
+		}
+		var w1 Poly
+		for c := 0; c < N; c++ {
+			w1[c] = UseHint(h[i][c], az[i][c])
+		}
+		w1p = append(w1p, PackW1(&w1)...)
+	}
+	ctilde := shake256(32, mu, w1p)
+	sig = append([]byte(nil), ctilde...)
+	for i := 0; i < L; i++ {
+		sig = append(sig, PackZ(&z[i])...)
+	}
+	sig = append(sig, EncodeHint(h)...)
+	return
+}
+
+// AzForZeroT1 returns A z only.
+func AzForZeroT1(rho []byte, z *[L]Poly) (az [K]Poly) {
+	A := expandACached(rho)
+	for i := 0; i < K; i++ {
+		for j := 0; j < L; j++ {
+			m := Mul(&A[i][j], &z[j])
+			az[i] = Add(&az[i], &m)
+		}
+	}
+	return
+}
+
+// ExpandACoeff returns the matrix in the coefficient domain (cached).
+func ExpandACoeff(rho []byte) *[K][L]Poly { return expandACached(rho) }
+
+// InvMod returns a^-1 mod q.
+func InvMod(a int64) int64 { return powmod(Mod(a), Q-2) }
